@@ -99,6 +99,30 @@ func Register(cfg *types.Chain33Config) {
 	})
 }
 
+var evmOnce sync.Once
+
+// RegisterEVMStub registers a stand-in executor under the name "evm" (the real evm executor is a plugin outside this
+// repository): it makes evm-shaped and proxied transactions admissible the way they are on a chain that has the
+// plugin. The stand-in itself interprets nothing (an undecodable program fails with ExecPack).
+func RegisterEVMStub(cfg *types.Chain33Config) {
+	found := false
+	for _, a := range types.AllowUserExec {
+		if string(a) == "evm" {
+			found = true
+		}
+	}
+	if !found {
+		types.AllowUserExec = append(types.AllowUserExec, []byte("evm"))
+	}
+	evmOnce.Do(func() {
+		drivers.Register(cfg, "evm", func() drivers.Driver {
+			d := &driver{name: "evm"}
+			d.SetChild(d)
+			return d
+		}, 0)
+	})
+}
+
 func (d *driver) GetDriverName() string { return d.name }
 
 func (d *driver) ExecutorOrder() int64 {
